@@ -260,3 +260,22 @@ func (t *T) GetVariantsOrSelf() []T {
 
 	return []T{*t}
 }
+
+// SetKeywordT records the declared type of a keyword parameter of this
+// (configured) method declaration.
+func (t *T) SetKeywordT(name string, keywordT *T) {
+	if t.keywordTs == nil {
+		t.keywordTs = make(map[string]*T)
+	}
+
+	t.keywordTs[name] = keywordT
+}
+
+// GetKeywordT returns what SetKeywordT recorded, or nil.
+func (t *T) GetKeywordT(name string) *T {
+	if t == nil || t.keywordTs == nil {
+		return nil
+	}
+
+	return t.keywordTs[name]
+}
